@@ -580,6 +580,20 @@ def fund_and_build(
     if version is None:
         version = ch.pick([0, 2], "psbt.version")
     cer.psbt = psbt.to_v2() if version == 2 else psbt
+    if version == 2 and lock_time > 0 and ch.draw(2, "locktime.required?"):
+        # BIP370: the lock time stated by the inputs that require one (the largest, all of one kind) instead of the
+        # fallback, which then says something else and is read by nobody
+        name = "required_height_lock_time" if lock_time < 500_000_000 else "required_time_lock_time"
+        floor = 1 if lock_time < 500_000_000 else 500_000_000
+        holder = ch.draw(len(cer.psbt.inputs), "locktime.holder")
+        for k, psbt_in in enumerate(cer.psbt.inputs):
+            if k == holder:
+                setattr(psbt_in, name, lock_time)
+            elif ch.draw(3, "locktime.other?") == 0:
+                setattr(psbt_in, name, floor + ch.draw(lock_time - floor + 1, "locktime.lower"))
+        cer.psbt.fallback_lock_time = ch.pick([0, None, 1, lock_time + 1 if lock_time < 499_999_999 else 500_000_000, 499_999_999], "locktime.fallback")
+        if cer.psbt.tx.lock_time != lock_time:
+            raise AssertionError(f"generator: required lock times give {cer.psbt.tx.lock_time}, wanted {lock_time}")
     return cer
 
 
